@@ -776,6 +776,9 @@ func (fr *Frame) resolveLoopVar(ld *loopData, v loopVar, phiVals map[*ssa.Phi]Va
 		}
 		x := fr.val(bestVal)
 		if bestAddr {
+			if x.Cell != nil {
+				return fr.cellGet(x.Cell), true
+			}
 			pt := bestVal.Type().Underlying().(*types.Pointer).Elem()
 			return Val{T: vc.loadAt(fr.st, x.T, pt)}, true
 		}
@@ -939,7 +942,7 @@ func (fr *Frame) enterLoop(ld *loopData, entryPhi map[*ssa.Phi]Val) {
 	// 1. invariants hold on entry
 	for k, cl := range invs {
 		t := fr.evalLoopClause(ld, cl, entryPhi)
-		vc.oblige("inv-init", fmt.Sprintf("%s#inv-init[%s.%s]", fr.fname(), lname, clauseLabel(cl, k)), fr.live, t, ld.header.Instrs[0].Pos())
+		vc.obligeSplit("inv-init", fmt.Sprintf("%s#inv-init[%s.%s]", fr.fname(), lname, clauseLabel(cl, k)), fr.live, t, cl)
 	}
 	// 2. havoc what the loop may modify
 	mods, all := vc.modOfBlocks(fr.fn, ld.blocks)
@@ -1075,7 +1078,7 @@ func (fr *Frame) backEdge(ld *loopData, from *ssa.BasicBlock, cond Term) {
 	lname := fmt.Sprintf("L%d", ld.ordinal)
 	for k, cl := range invs {
 		t := fr.evalLoopClause(ld, cl, phiVals)
-		vc.oblige("inv-pres", fmt.Sprintf("%s#inv-pres[%s.%s]", fr.fname(), lname, clauseLabel(cl, k)), cond, t, from.Instrs[len(from.Instrs)-1].Pos())
+		vc.obligeSplit("inv-pres", fmt.Sprintf("%s#inv-pres[%s.%s]", fr.fname(), lname, clauseLabel(cl, k)), cond, t, cl)
 	}
 	if key, ok := fr.firedKey[ld]; ok {
 		fired := fr.st.cells[key].T
